@@ -400,6 +400,11 @@ pub fn m<X: Val>(ev: u32) -> impl Fn(X) -> X + Copy + Send + Sync + 'static {
         x.stamp(ev)
     }
 }
+/// makes the evaluation of an operand expression observable: logs `ev` when evaluated and hands the callback through
+pub fn mk<F>(ev: u32, f: F) -> F {
+    event(ev, 0);
+    f
+}
 /// usize -> usize, value changing (usize has no stamp): the steps of a Copy-valued branch must be distinguishable
 pub fn inc(ev: u32) -> impl Fn(usize) -> usize + Copy + Send + Sync + 'static {
     move |x: usize| {
